@@ -27,7 +27,7 @@ CHECKS = {
         text="Proof sites driven with the peer's public key as a stub whose verify() is a symbolic predicate V: verifyServerKeyExchange accepts only a (hash, signature) pair the client offered for the certificate's key type, over exactly hash(client_random || server_random || params), only if V holds, never an empty signature; the TLS 1.3 PSK/ticket selection attributes a stored client identity only when that ticket was selected after its binder verified (C13.5); own signatures are emitted only after self-verification (C10.6); DSA acceptance is exact (C10.3); the SRP server refuses A = 0 mod N for every A; the Checker passes iff the fingerprint matches; and no error path that is meant to abort is a discarded generator call (AST, regenerated each run).",
         note="TLS <= 1.2 and TLS 1.3 CertificateVerify verification sites inside the long handshake functions and post-handshake authentication are not driven (only their building blocks); signature mathematics is C10; certificate path validation is not done by the library.",
         design="5/C05", technique=T),
-
+    "C06": dict(
         text="The gate every received message passes, TLSRecordLayer._getMsg(expected content types, expected handshake types), is executed on a real TLSConnection for every literal argument pair found at the library's call sites (read from the AST on each run), both roles and versions, with the next record's content type, handshake type and body symbolic: z3 proves that a message is returned only if its content type and handshake type were expected, and that everything else ends in a fatal alert that is on the wire before the exception (unexpected_message for a wrong type), the peer's own alert, or a decode error. Renegotiation attempts on an established connection are proved to be answered with no_renegotiation without touching state; the TLS 1.3 framing rules (CCS only as 0x01 in compatibility mode, no interleaving, key-change messages end on a record boundary, no empty non-application records, no empty record skipped while a handshake message is awaited) are separate obligations.",
         note="Null record protection (F-CONN); one or two records per obligation; the expectation sequences of whole handshake flows (which _getMsg arguments follow which) are covered only for the flows driven in C03/C04 obligations, not for every key-exchange middle; whole-trace languages by skip/duplicate/swap of honest traces need live runs and are not claimed.",
         design="5/C06", technique=T),
